@@ -188,6 +188,7 @@ func check(args []string) int {
 				"VERIF_REPLAY_DIR="+replayDir,
 				"VERIF_SCRATCH="+scratch,
 				"VERIF_KNOWN="+filepath.Join(verifDir(), "known_findings.json"),
+				"GOMAXPROCS="+envOr("VERIF_WORKER_GOMAXPROCS", "2"),
 			)
 			logPath := filepath.Join(outDir, fmt.Sprintf("w%d.log", w))
 			lf, _ := os.Create(logPath)
